@@ -64,3 +64,37 @@ package actor
 //@   at call 2 of recordUnsent ghost rs_pending = false
 //@   at call 2 of (*relocationWorker).releaseUndeliverableLazyGrains assert releases-the-lazy-grains-of-the-remainder: arg2 == rs_unsent && arg3 == failures
 //@   ensures an-unsent-remainder-is-never-dropped: !rs_pending
+
+// recording an unsent remainder: every actor of every batch is recorded (as an
+// actor, with the peer-level error, under its own address), every eager grain is
+// recorded (as a grain, under its own identity) and lazy grains are not.
+//@ ghost local ru_base int
+//@ ghost local ru_rec int
+//@ ghost local ru_actors []*internalpb.Actor
+//@ ghost local ru_addr string
+//@ ghost local ru_eager int
+//@ ghost local ru_grec int
+//@ ghost local ru_last_eager bool
+//@ ghost local ru_gid string
+
+//@ func recordUnsent(requests, err, failures)
+//@   bounds off
+//@   ghost entry ru_rec = 0
+//@   ghost entry ru_base = 0
+//@   ghost entry ru_eager = 0
+//@   ghost entry ru_grec = 0
+//@   loop 1 invariant eager-grains-recorded-so-far: ru_grec == ru_eager
+//@   at call 1 of (*RelocateBatchRequest).GetActors ghost ru_base = ru_rec
+//@   at call 1 of (*RelocateBatchRequest).GetActors ghost ru_actors = result
+//@   loop 2 invariant actors-of-this-batch-recorded-so-far: ru_rec == ru_base + rangeindex + 1 && -1 <= rangeindex && ru_grec == ru_eager
+//@   at call 1 of (*Actor).GetAddress ghost ru_addr = result
+//@   at call 1 of (*relocationFailures).record assert records-the-actor-with-the-peer-error: arg0 == failures && arg1 == ru_addr && arg2 == false && arg3 == err
+//@   at call 1 of (*relocationFailures).record ghost ru_rec = ru_rec + 1
+//@   at call 1 of (*RelocateBatchRequest).GetGrains assert every-actor-of-the-batch-recorded: ru_rec == ru_base + len(ru_actors)
+//@   loop 3 invariant eager-grains-recorded-so-far: ru_grec == ru_eager
+//@   at call 1 of (*Grain).GetEagerRelocation ghost ru_last_eager = result
+//@   at call 1 of (*Grain).GetEagerRelocation ghost ru_eager = ru_eager + ite(result, 1, 0)
+//@   at call 1 of (*GrainId).GetValue ghost ru_gid = result
+//@   at call 2 of (*relocationFailures).record assert records-only-eager-grains-as-grains: ru_last_eager && arg0 == failures && arg1 == ru_gid && arg2 == true && arg3 == err
+//@   at call 2 of (*relocationFailures).record ghost ru_grec = ru_grec + 1
+//@   ensures every-eager-grain-recorded: ru_grec == ru_eager
